@@ -8,4 +8,5 @@ pub mod exec;
 pub mod sio;
 pub mod refmodel;
 pub mod app;
+pub mod appgen;
 pub mod engines;
